@@ -125,6 +125,23 @@ func runProperty(p *Prog, prop, tier string, onlyFunc string) *PropRun {
 		names = []string{onlyFunc}
 	}
 	pr.Funcs = names
+	if onlyFunc == "" || onlyFunc == "tables" {
+		tobls, tfuncs, terr := proveTableFacts(p, prop)
+		if terr != "" {
+			pr.FuncResults["table-evaluation"] = verifyResult{Unsupported: terr}
+			pr.Funcs = append(pr.Funcs, "table-evaluation")
+		}
+		for i, o := range tobls {
+			pr.Obls = append(pr.Obls, o)
+			if _, ok := pr.FuncResults[tfuncs[i]]; !ok {
+				pr.Funcs = append(pr.Funcs, tfuncs[i])
+				pr.FuncResults[tfuncs[i]] = verifyResult{Paths: 1, RetPaths: 1}
+			}
+		}
+		if onlyFunc == "tables" {
+			return pr
+		}
+	}
 	// spec lemmas tagged with this property are proved here
 	for _, lm := range p.specs.Lemmas {
 		if onlyFunc != "" && onlyFunc != lm.Name {
